@@ -168,8 +168,8 @@ def gen_history(cat, prop, seed, h, tier):
         others = [i for i in ids_all if ent[i]["op"] in ("perlin", "generate_terrain") and i not in gens]
         if gens and len(others) >= 2:
             # a pending generator result across generator calls with other seeds
-            ops += [{"k": "defer", "e": rng.choice(gens)}] + [{"k": "call", "e": i} for i in rng.sample(others, min(3, len(others)))] \
-                + [{"k": "force"}]
+            rng.shuffle(others)
+            ops += [{"k": "defer", "e": rng.choice(gens)}] + [{"k": "call", "e": i} for i in others[:8]] + [{"k": "force"}]
         if "joint" not in kinds and len(dask_ids) >= 2:
             a = rng.choice(dask_ids)
             same = [i for i in dask_ids if i != a and ent[i][fkey] == ent[a][fkey]]
